@@ -39,15 +39,21 @@ type Case struct {
 	// a second database while rows are still being added: that snapshot must be
 	// a consistent prefix - exactly the rows with id below its row count.
 	FlushDuring bool
+	// Empty: every Empty-th row has no value at all (an empty map, or nil for
+	// every other one of them); 0 = none
+	Empty int
 }
 
 func (c *Case) Summary() string {
-	return fmt.Sprintf("writer=%s goroutines=%d rows=%d shared-cols=%d mods=%v split=%d reuse-map=%v flush-during-adds=%v", map[bool]string{true: "big", false: "in-memory"}[c.Big], c.Goroutines, c.Total, c.Cols, c.K, c.Split, c.ReuseMap, c.FlushDuring)
+	return fmt.Sprintf("writer=%s goroutines=%d rows=%d shared-cols=%d mods=%v split=%d reuse-map=%v flush-during-adds=%v every-%d-th-row-without-values", map[bool]string{true: "big", false: "in-memory"}[c.Big], c.Goroutines, c.Total, c.Cols, c.K, c.Split, c.ReuseMap, c.FlushDuring, c.Empty)
 }
 
 var colNames = []string{"a", "b", "c", "d"}
 
 func (c *Case) row(i int) model.Row {
+	if c.Empty > 0 && i%c.Empty == c.Empty-1 {
+		return model.Row{}
+	}
 	r := model.Row{"tag": fmt.Sprintf("t%d", i)}
 	for j := 0; j < c.Cols; j++ {
 		if (i+j)%7 == 3 {
@@ -132,6 +138,9 @@ func oracle(c *Case) (interleaved bool, err error) {
 							reused[k] = v
 						}
 						row = reused
+					}
+					if len(row) == 0 && !c.ReuseMap && i%2 == 1 {
+						row = nil
 					}
 					id, err := w.AddRow(row)
 					if err != nil {
@@ -300,6 +309,9 @@ func drawCase(t *rapid.T) *Case {
 	c.Split = rapid.IntRange(0, 1).Draw(t, "split")
 	c.ReuseMap = rapid.Bool().Draw(t, "reusemap")
 	c.FlushDuring = !c.Big && rapid.IntRange(0, 2).Draw(t, "flushduring") == 0
+	if rapid.IntRange(0, 2).Draw(t, "empties") == 0 {
+		c.Empty = rapid.SampledFrom([]int{2, 3, 5, 17}).Draw(t, "empty")
+	}
 	return c
 }
 
